@@ -56,6 +56,26 @@ def main(pid, tier, replay_path=None):
             res, crashed = conn.run_scenarios(sc, binary, scs, 'v', procs=14, test='TestVerifServerScenarios')
             mcov, mscs = {}, []
             if not replay_path:
+                # descriptor exhaustion (EMFILE back-off): a process of its own per run
+                import subprocess
+                for kind in (('long',) if tier == 'quick' else ('long', 'short', 'long')):
+                    outp = sc.path('emfile_%s_%d.json' % (kind, len(res)))
+                    env = dict(vlib.GOENV, VERIF_OUT=outp, VERIF_EMFILE=kind)
+                    p = subprocess.run([binary, '-test.run', '^TestVerifServerEMFILE$', '-test.count=1', '-test.timeout', '60s'], cwd=sc.path('repo'), env=env, capture_output=True, text=True)
+                    sid = 'emfile-%s-%d' % (kind, len(res))
+                    if os.path.exists(outp):
+                        r = json.load(open(outp)); r['scenario'] = sid
+                        r['events'] = [dict(e, k=e.get('k', ''), g=e.get('g', 'env')) for e in r['events']]
+                        if not any(e['e'] == 'SetupErr' for e in r['events']):
+                            if not any(e['e'] == 'ResumeCheck' for e in r['events']):
+                                r['events'].append({'e': 'Panic', 'g': 'env', 'k': '', 'n': 0, 'm': 0, 'err': 'the server process died during descriptor exhaustion: ' + (p.stdout + p.stderr)[-300:]})
+                            res[sid] = r
+                            scs.append({'id': sid, 'shutdown': False, 'emfile': kind, 'strategy': 'free', 'plan': []})
+                    elif 'panic' in (p.stdout + p.stderr):
+                        res[sid] = {'scenario': sid, 'info': {'stuck': '', 'taken': []}, 'events': [{'e': 'Init', 'g': 'env', 'k': '', 'n': 1, 'm': 0, 'err': ''},
+                                    {'e': 'Panic', 'g': 'env', 'k': '', 'n': 0, 'm': 0, 'err': 'the server process died during descriptor exhaustion: ' + (p.stdout + p.stderr)[-300:]}]}
+                        scs.append({'id': sid, 'shutdown': False, 'emfile': kind, 'strategy': 'free', 'plan': []})
+            if not replay_path:
                 # Server.tla: exhaustive, then its window / simulated schedules on the real server, replayed step by step in the model
                 import serverp
                 mst, mtr = serverp.exhaustive(sc, tier)
@@ -119,7 +139,7 @@ def main(pid, tier, replay_path=None):
                 cov['trace_validation_states'] = cov['states']
                 cov['states'], cov['transitions'] = mcov['servermodel_states'], mcov['servermodel_transitions']
                 cov['spec_modules'] = vlib.spec_hashes(['ServerObs.tla', 'TraceServer.tla', 'Server.tla', 'Conn.tla', 'TraceServerImpl.tla'])
-            vlib.write_evidence(pid, tier, 'model_checking', cov, time.time() - t0, len(violations), ['TLC/SANY', 'controlled scheduler, manual pollers', 'loopback TCP as observed', 'EMFILE back-off is not exercised by this check'])
+            vlib.write_evidence(pid, tier, 'model_checking', cov, time.time() - t0, len(violations), ['TLC/SANY', 'controlled scheduler, manual pollers', 'loopback TCP as observed', 'EMFILE back-off: one exhaustion of 2.6 s (all seven retry delays) per run'])
     except vlib.Inconclusive as e:
         vlib.log('INCONCLUSIVE: %s' % e)
         if violations:
